@@ -30,7 +30,7 @@ func (c *capStore) InsertLogs(ctx context.Context, logs ...*ledger.ChainedLog) e
 
 func runC04InMemory(cfg *vc.Config, rep *vc.Report) {
 	ctx := context.Background()
-	cfg.Cases(400, 8000, func(i int, r *vc.Rand) {
+	cfg.Cases(400, 40000, func(i int, r *vc.Rand) {
 		st := &capStore{InMemoryStore: storage.NewInMemoryStore()}
 		cmd := command.New(st, command.NoOpLocker, command.NewCompiler(16), command.NewReferencer(), bus.NewNoOpMonitor())
 		_ = cmd.Init(ctx)
